@@ -145,7 +145,14 @@ def unsupplied_junctions(net, mg=None, slacks=None, respect_valves=True):
 
     mg = mg or create_nxgraph(net, respect_status_valves=respect_valves)
     if slacks is None:
-        slacks = set(net.ext_grid[net.ext_grid.in_service].junction.values)
+        # junctions with a fixed pressure: external grids of a pressure type and the flow
+        # junctions of circulation pumps
+        eg = net.ext_grid[net.ext_grid.in_service & net.ext_grid.type.isin(["p", "pt"])]
+        slacks = set(eg.junction.values)
+        for circ_pump in ["circ_pump_pressure", "circ_pump_mass"]:
+            if circ_pump in net and len(net[circ_pump]):
+                pumps = net[circ_pump]
+                slacks |= set(pumps.flow_junction.values[pumps.in_service.values.astype(bool)])
     not_supplied = set()
     for cc in nx.connected_components(mg):
         if not set(cc) & slacks:
